@@ -2,3 +2,5 @@
 
 pub mod pool;
 pub mod recovery;
+#[cfg(humphrey_verif)]
+pub mod verif;
